@@ -186,3 +186,27 @@ theorem bodyFoot_ne_pending {m : MDesc} {fs : FS} {p : Path} (k : String) (h : B
     simp [modelPath, resultsPath, keyDir, metaDir, pendingPath, datasetsDir, hashDir, dbRoot]
 
 end Pharmpy.C16
+
+namespace Pharmpy.C16
+
+theorem get_cons_eq (fs : FS) (p q : Path) (n : Node) :
+    get ((q, n) :: fs) p = if q = p then some n else get fs p := by
+  by_cases h : q = p
+  · subst h; simp [get_cons_self]
+  · simp [h, get_cons_ne h]
+
+theorem get_filter_eq (fs : FS) (p q : Path) :
+    get (fs.filter (fun pn => pn.1 ≠ q)) p = if q = p then none else get fs p := by
+  by_cases h : q = p
+  · subst h; rw [get_filter_self]; simp
+  · rw [get_filter_ne h]; simp [h]
+
+theorem get_mkdirP_file {fs : FS} {base : Path} {rel : List Seg} {p : Path}
+    (h : ∀ q ∈ ancestors base rel, q ≠ p) : get (applyAll fs (mkdirP fs base rel)) p = get fs p := by
+  apply get_applyAll_ne
+  intro o ho
+  simp only [mkdirP, List.mem_map, List.mem_filter] at ho
+  obtain ⟨q, ⟨hq, _⟩, rfl⟩ := ho
+  exact h q hq
+
+end Pharmpy.C16
